@@ -114,6 +114,27 @@ fn judge_rc3(case: &Case, l: &mut Local) {
     l.check("parameter object reproduces the initial isometry, its inverse and the moved centre", if gimbal { "gimbal" } else { "" }, e <= 1e-9 * scale, mk, || {
         format!("euler ({},{},{}) t {:?} rc {:?}: error {:e} (allowed {:e})", rx, ry, rz, t, rc, e, 1e-9 * scale)
     });
+    // rotations far below any angular resolution of interest are still rotations: the turn itself is reproduced
+    // (once per translation and centre)
+    if case.i == 0 && case.j == 0 && case.k == 0 {
+        for ang in [2e-9, 3e-7, 4e-5] {
+            for axis in [Vector3::x(), Vector3::y(), Vector3::z(), Vector3::new(1.0, -1.0, 1.0).normalize()] {
+                l.eval();
+                let ini = Iso3::new(t, axis * ang);
+                match guarded(|| RcParams3::from_initial(&ini, &rc)) {
+                    Ok(pp) => {
+                        let dm = (pp.transform().rotation.to_rotation_matrix().matrix() - ini.rotation.to_rotation_matrix().matrix()).abs().max();
+                        let dt = d3(&(pp.transform() * rc), &(ini * rc));
+                        l.bucket("initial rotation of a few nanoradians");
+                        l.check("parameter object reproduces the initial isometry, its inverse and the moved centre", "tiny rotation", dm <= 1e-13 && dt <= 1e-9 * scale, mk, || format!("rotation of {:e} about {:?}: rotation matrix differs by {:e}", ang, axis, dm));
+                    }
+                    Err(e) => {
+                        l.check("parameter object builds", "panic", false, mk, || e.clone());
+                    }
+                }
+            }
+        }
+    }
     // updates: pure translation, and a general update against the independent formula
     for (dx, dr) in [(Vector3::new(0.5, 0.0, -0.25), Vector3::zeros()), (Vector3::new(1e-3, 2e-3, 0.0), Vector3::new(1e-3, 0.0, 0.5)), (Vector3::zeros(), Vector3::new(0.0, 0.5, 0.0))] {
         l.eval();
